@@ -239,7 +239,9 @@ def neighbors(
                     continue
 
                 if unknown_handling == LNK_UNKNOWN_NEIGHBOR:
-                    nbs.append(link.other(vert))
+                    # the filter applies whatever the link's type
+                    if filterfunc is None or filterfunc(link, v2):
+                        nbs.append(v2)
                 else:
                     raise NotImplementedError(
                         f"Unknown link class {type(link)}"
@@ -279,7 +281,9 @@ def neighbors(
                     continue
 
                 if unknown_handling == LNK_UNKNOWN_NEIGHBOR:
-                    nbs.append(link.other(vert))
+                    # the filter applies whatever the link's type
+                    if filterfunc is None or filterfunc(link, v2):
+                        nbs.append(v2)
                 else:
                     raise NotImplementedError(
                         f"Unknown link class {type(link)}"
